@@ -5,6 +5,7 @@ package runner
 
 import (
 	"bufio"
+	"encoding/binary"
 	"encoding/json"
 	"flag"
 	"fmt"
@@ -60,6 +61,8 @@ type Violation struct {
 }
 
 type workerOut struct {
+	// Cases: VERIF_RECORD_CASES=1 only - per open known-finding signature, the hashes of the failing cases
+	Cases      map[string][]uint64   `json:"cases,omitempty"`
 	Counters   map[string]int64      `json:"counters"`
 	Distinct   []uint64              `json:"distinct"`
 	DistinctN  int                   `json:"distinct_n"`
@@ -87,7 +90,10 @@ type Ctx struct {
 	Verif   string // /verif
 	Variant string // build variant this worker runs in ("" = default)
 	Work    string // private scratch directory of this worker (removed afterwards)
+	Check   string // id of the check being run
 
+	pins     map[string]map[uint64]struct{} // recorded failing cases per open known-finding signature
+	open     map[string]bool
 	deadline time.Time
 	out      workerOut
 	distinct map[uint64]struct{}
@@ -183,6 +189,21 @@ func (c *Ctx) Incomplete(why string) {
 // scenario (by JSON length) is kept.
 func (c *Ctx) Violation(sig, what string, scenario any) {
 	b, _ := json.Marshal(scenario)
+	if set, pinned := c.pinnedCases(sig); pinned {
+		h := hash(string(b))
+		if os.Getenv("VERIF_RECORD_CASES") != "" {
+			if c.out.Cases == nil {
+				c.out.Cases = map[string][]uint64{}
+			}
+			c.out.Cases[sig] = append(c.out.Cases[sig], h)
+		} else if set != nil {
+			if _, recorded := set[h]; !recorded {
+				// same root-cause class as a known finding, but not one of the cases recorded for it
+				what = "this case carries the signature of a known finding (" + sig + ") but is not among the failing cases recorded for it in known_findings.d/\n" + what
+				sig += ":case-not-among-the-recorded-failing-cases"
+			}
+		}
+	}
 	v := c.out.Violations[sig]
 	if v == nil {
 		if len(c.out.Violations) >= 200 {
@@ -195,6 +216,40 @@ func (c *Ctx) Violation(sig, what string, scenario any) {
 	if len(b) < v.Size {
 		v.What, v.Scenario, v.Size = what, b, len(b)
 	}
+}
+
+// caseFile is where the failing cases of an open known finding are recorded for a tier:
+// sorted little-endian uint64 hashes of the scenario JSON of every failing case.
+func caseFile(verif, check, sig, tier string) string {
+	return filepath.Join(verif, "known_findings.d", fmt.Sprintf("%s-%016x.%s.u64", check, hash(sig), tier))
+}
+
+// pinnedCases tells whether sig is the signature of an open known finding of this
+// check and, if the finding's failing cases were recorded for this tier, returns them.
+func (c *Ctx) pinnedCases(sig string) (map[uint64]struct{}, bool) {
+	if c.pins == nil {
+		c.pins = map[string]map[uint64]struct{}{}
+		c.open = map[string]bool{}
+		for _, f := range loadFindings(c.Verif) {
+			if f.Property == c.Check && f.Status == "open" {
+				c.open[f.Signature] = true
+			}
+		}
+	}
+	if !c.open[sig] {
+		return nil, false
+	}
+	set, loaded := c.pins[sig]
+	if !loaded {
+		if b, err := os.ReadFile(caseFile(c.Verif, c.Check, sig, c.Tier)); err == nil {
+			set = make(map[uint64]struct{}, len(b)/8)
+			for i := 0; i+8 <= len(b); i += 8 {
+				set[binary.LittleEndian.Uint64(b[i:])] = struct{}{}
+			}
+		}
+		c.pins[sig] = set
+	}
+	return set, true
 }
 
 // RaceReports returns the race detector reports written since the last call
@@ -322,7 +377,7 @@ func runWorker(args []string) int {
 		fmt.Fprintln(os.Stderr, "unknown check", o.check)
 		return 2
 	}
-	c := &Ctx{Tier: o.tier, Seed: o.seed, Worker: o.worker, Workers: o.workers, Verif: o.verif, Variant: o.variant,
+	c := &Ctx{Check: o.check, Tier: o.tier, Seed: o.seed, Worker: o.worker, Workers: o.workers, Verif: o.verif, Variant: o.variant,
 		Work:     filepath.Join(o.workdir, fmt.Sprintf("w%s%d", o.variant, o.worker)),
 		distinct: map[uint64]struct{}{}, outcomes: map[uint64]struct{}{},
 		hb: o.outFile + ".hb", raceLog: strings.TrimSuffix(o.outFile, ".json"), raceOff: map[string]int{}}
@@ -492,6 +547,12 @@ func runParent(args []string) int {
 		}
 		merged.Notes = append(merged.Notes, w.Notes...)
 		merged.Exhaustive = merged.Exhaustive && w.Exhaustive
+		for sig, hs := range w.Cases {
+			if merged.Cases == nil {
+				merged.Cases = map[string][]uint64{}
+			}
+			merged.Cases[sig] = append(merged.Cases[sig], hs...)
+		}
 		for sig, v := range w.Violations {
 			if m := merged.Violations[sig]; m == nil {
 				merged.Violations[sig] = v
@@ -505,6 +566,36 @@ func runParent(args []string) int {
 	}
 	if broken {
 		return 2
+	}
+
+	// VERIF_RECORD_CASES=1 (never set by a registered command): write down the failing cases of every open
+	// known finding for this tier, so that later runs report any failing case that is not among them
+	if os.Getenv("VERIF_RECORD_CASES") != "" {
+		if !merged.Exhaustive {
+			fmt.Fprintln(os.Stderr, "VERIF_RECORD_CASES: run was cut, nothing recorded")
+		} else {
+			_ = os.MkdirAll(filepath.Join(o.verif, "known_findings.d"), 0o755)
+			for sig, hs := range merged.Cases {
+				sort.Slice(hs, func(i, j int) bool { return hs[i] < hs[j] })
+				buf := make([]byte, 0, 8*len(hs))
+				var prev uint64
+				n := 0
+				for i, h := range hs {
+					if i > 0 && h == prev {
+						continue
+					}
+					buf = binary.LittleEndian.AppendUint64(buf, h)
+					prev = h
+					n++
+				}
+				path := caseFile(o.verif, o.check, sig, o.tier)
+				if err := os.WriteFile(path, buf, 0o644); err != nil {
+					fmt.Fprintln(os.Stderr, err)
+					return 2
+				}
+				fmt.Printf("recorded %d failing cases (%d reports) of %q in %s\n", n, len(hs), sig, path)
+			}
+		}
 	}
 
 	// classify violations against the known-findings file
